@@ -1,4 +1,5 @@
 import HcipyVerif.Model.Grid
+import HcipyVerif.Model.GridLayout
 import HcipyVerif.Model.Proto
 
 /-!
@@ -62,9 +63,60 @@ def RegAxis.subsample (k : Nat) (a : RegAxis) : RegAxis :=
   let dnew := a.delta * (k : Rat)
   { delta := dnew, dim := a.dim / k, zero := a.zero - a.delta / 2 + dnew / 2 }
 
+/-- axial coordinates `(q, r)` of ring `n` of `make_hexagonal_grid`, in the order the code lists them:
+top, right top, right bottom, bottom, left bottom, left top — `n` hexagons each -/
+def hexRing (n : Nat) : List (Int × Int) :=
+  let N : Int := n
+  (List.range n).map (fun (k : Nat) => ((N - (k : Int), (k : Int)) : Int × Int)) ++
+  (List.range n).map (fun (k : Nat) => ((-(k : Int), N) : Int × Int)) ++
+  (List.range n).map (fun (k : Nat) => ((-N, N - (k : Int)) : Int × Int)) ++
+  (List.range n).map (fun (k : Nat) => ((-N + (k : Int), -(k : Int)) : Int × Int)) ++
+  (List.range n).map (fun (k : Nat) => (((k : Int), -N) : Int × Int)) ++
+  (List.range n).map (fun (k : Nat) => ((N, -N + (k : Int)) : Int × Int))
+
+/-- all hexagons: the centre, then ring 1, ring 2, … -/
+def hexQR (rings : Nat) : List (Int × Int) := (0, 0) :: (List.range rings).flatMap fun n => hexRing (n + 1)
+
+/-- `make_hexagonal_grid(circum_diameter, n_rings, pointy_top, center)`; `s3` stands for `√3` -/
+def makeHexGrid (s3 d : Rat) (rings : Nat) (pointy : Bool) (cx cy : Rat) : Grid :=
+  let apothem := d * s3 / 4
+  let qr := hexQR rings
+  -- (as the code has it: the centre is added BEFORE the axes are exchanged for flat-topped hexagons, so a flat-topped
+  -- grid is centred on `(cy, cx)` — observed, outside the properties; proposed repair pending_fixes/D86-…)
+  let x := qr.map fun p => ((-p.1 + p.2 : Int) : Rat) * d / 2 + cx
+  let y := qr.map fun p => ((p.1 + p.2 : Int) : Rat) * apothem * 2 + cy
+  { system := .cartesian, coords := .unstructured (if pointy then [x, y] else [y, x]),
+    weights := .scalar (2 * (apothem * apothem) * s3) }
+
+/-- `make_pupil_grid(dims, diameter)`: the uniform grid of that extent around the origin -/
+def makePupilGrid (dims : List Nat) (diameter : List Rat) : Grid :=
+  makeUniformGrid dims diameter (diameter.map fun _ => 0) false
+
 inductive Err where
   | value | type | index | notimpl | attr
 deriving DecidableEq, Repr
+
+/-- the `spatial_resolution` `make_focal_grid` derives from its optional arguments `spatial_resolution`,
+`f_number`, `pupil_diameter`, `focal_length`, `reference_wavelength` (scalars); `.value` = the ValueError
+for an incomplete set -/
+def focalResolution (sr fnum pd fl wl : Option Rat) : Except Err Rat :=
+  match sr with
+  | some s => .ok s
+  | none =>
+    let fnum' : Option Rat := match fnum with
+      | some f => some f
+      | none => match pd, fl with
+        | some p, some f => some (f / p)
+        | _, _ => none
+    match fnum', wl with
+    | none, none => .ok 1
+    | none, some _ => .error .value
+    | some _, none => .error .value
+    | some f, some w => .ok (f * w)
+
+/-- `make_focal_grid` with all its (scalar) optional arguments -/
+def makeFocalGridFull (q na : List Rat) (sr fnum pd fl wl : Option Rat) : Except Err Grid :=
+  (focalResolution sr fnum pd fl wl).map fun s => makeFocalGrid q na (q.map fun _ => s)
 
 def Grid.supersample (k : List Nat) (g : Grid) : Except Err Grid :=
   match g.coords with
@@ -322,6 +374,25 @@ def stepEffect (st : Store) : List String → Option (Effect × String)
     let q ← parseRatList? q; let na ← parseRatList? na; let sr ← parseRatList? sr
     if q.length ≠ na.length ∨ q.length ≠ sr.length then none else
     pure (Effect.push (makeFocalGrid q na sr), s!"ok {st.length}")
+  | ["pupil", dims, diam] => do
+    let dims ← parseNatList? dims; let diam ← parseRatList? diam
+    if dims.length ≠ diam.length then none else
+    pure (Effect.push (makePupilGrid dims diam), s!"ok {st.length}")
+  | ["focalfull", q, na, sr, fnum, pd, fl, wl] => do
+    let q ← parseRatList? q; let na ← parseRatList? na
+    let opt : String → Option (Option Rat) := fun s => if s == "-" then some none else (parseRat? s).map some
+    let sr ← opt sr; let fnum ← opt fnum; let pd ← opt pd; let fl ← opt fl; let wl ← opt wl
+    if q.length ≠ na.length then none else
+    match makeFocalGridFull q na sr fnum pd fl wl with
+    | .ok g => pure (Effect.push g, s!"ok {st.length}")
+    | .error e => pure (Effect.keep, showErr e)
+  | ["hex", s3, d, rings, pointy, cx, cy] => do
+    let s3 ← parseRat? s3; let d ← parseRat? d; let rings ← parseNat? rings; let pointy ← parseNat? pointy
+    let cx ← parseRat? cx; let cy ← parseRat? cy
+    pure (Effect.push (makeHexGrid s3 d rings (pointy != 0) cx cy), s!"ok {st.length}")
+  | ["hexqr", rings] => do
+    let rings ← parseNat? rings
+    pure (Effect.keep, "ok " ++ ";".intercalate ((hexQR rings).map fun p => s!"{p.1},{p.2}"))
   | ["fft", i, tau, q, fov, shift] => do
     let i ← parseNat? i; let g ← st[i]?; let tau ← parseRat? tau
     let q ← parseRatList? q; let fov ← parseRatList? fov; let shift ← parseRatList? shift
@@ -342,6 +413,10 @@ def stepEffect (st : Store) : List String → Option (Effect × String)
     match g.subsample k with
     | .ok g' => pure (Effect.push g', s!"ok {st.length}")
     | .error e => pure (Effect.keep, showErr e)
+  | ["same", i] => do
+    -- `grid.as_(<its own coordinate system>)`: the identity, by convention the grid itself — no new object
+    let i ← parseNat? i; let _ ← st[i]?
+    pure (Effect.keep, "ok")
   -- queries
   | ["show", i] => do
     let i ← parseNat? i; let g ← st[i]?
@@ -370,6 +445,18 @@ def stepEffect (st : Store) : List String → Option (Effect × String)
     if cs.length ≠ g.coords.size ∨ sn.length ≠ g.coords.size then none else
     if g.system ≠ .polar ∨ g.coords.ndim ≠ 2 then pure (Effect.keep, "err value") else
     pure (Effect.keep, "ok " ++ showRatLists (g.coords.asCartPts (List.zip cs sn)))
+  | ["pshifted", i, cs, sn, b] => do
+    -- `PolarGrid.shifted(b)`: polar → Cartesian (directions supplied per point), then the shift: Cartesian points
+    let i ← parseNat? i; let g ← st[i]?; let cs ← parseRatList? cs; let sn ← parseRatList? sn; let b ← parseRatList? b
+    if cs.length ≠ g.coords.size ∨ sn.length ≠ g.coords.size ∨ b.length ≠ 2 then none else
+    if g.system ≠ .polar ∨ g.coords.ndim ≠ 2 then pure (Effect.keep, "err value") else
+    pure (Effect.keep, "ok " ++ showRatLists (g.coords.pshiftedPts (List.zip cs sn) b))
+  | ["pshift", i, cs, sn, b] => do
+    -- `PolarGrid.shift(b)`: the three steps composed; per point `[r,c,s]`, `[]` = irrational radius
+    let i ← parseNat? i; let g ← st[i]?; let cs ← parseRatList? cs; let sn ← parseRatList? sn; let b ← parseRatList? b
+    if cs.length ≠ g.coords.size ∨ sn.length ≠ g.coords.size ∨ b.length ≠ 2 then none else
+    if g.system ≠ .polar ∨ g.coords.ndim ≠ 2 then pure (Effect.keep, "err value") else
+    pure (Effect.keep, "ok " ++ showRatLists ((g.coords.pshiftPts (List.zip cs sn) b).map fun o => o.getD []))
   | ["kinds"] => pure (Effect.keep, "ok k" ++ String.join (st.map fun g => toString g.coords.kind))
   -- the right-hand sides of the `points_*` theorems: the images of the CURRENT points under the map the operation stands for
   | ["image", i, "scale", a] => do
@@ -401,14 +488,47 @@ def stepEffect (st : Store) : List String → Option (Effect × String)
   | ["eqrow", i] => do
     let i ← parseNat? i; let a ← st[i]?
     pure (Effect.keep, "ok " ++ String.join (st.map fun b => showBool (a.eq b)))
+  | ["hashl", i, modes] => do
+    -- the hash input of grid `i` when its coordinate arrays lie in memory in the layouts `modes` (one per array:
+    -- 0 contiguous, 1 negative stride, 2 stride 2, 3 offset view); then the C_CONTIGUOUS flag of every array and
+    -- whether the views denote the grid's values
+    let i ← parseNat? i; let g ← st[i]?; let modes ← parseNatList? modes
+    match g.coords.arrays? with
+    | some (sep, arrays) =>
+      if modes.length ≠ arrays.length then none else
+      let arrs := List.zipWith LArr.make modes arrays
+      pure (Effect.keep, "ok " ++ ",".intercalate ((hashInputL g.system sep arrs).map showTok) ++ " f" ++
+        String.join (arrs.map fun a => showBool a.contiguous) ++ " " ++ showBool (decide (arrs.map LArr.values = arrays)))
+    | none => pure (Effect.keep, "err value")
   | ["hash", i] => do
     let i ← parseNat? i; let g ← st[i]?
     pure (Effect.keep, "ok " ++ ",".intercalate (g.hashInput.map showTok))
   | _ => none
 
-/-- `reset` empties the store; every other request has one `Effect`. -/
+/-- the tokens of a request that name slots of the store (by position, per op) -/
+def slotArgs : List String → List String
+  | "eq" :: i :: j :: _ => [i, j]
+  | "eqnan" :: i :: j :: _ => [i, j]
+  | "eqold" :: i :: j :: _ => [i, j]
+  | op :: i :: _ =>
+    if op ∈ ["set", "copy", "todict", "rtdict", "rtdictas", "scale", "scaled", "shift", "shifted", "shiftf", "shiftedf",
+             "absorbs", "shiftvals", "reverse", "reversed", "reverseold", "rotate", "rotated", "protate", "protated",
+             "mat", "fft", "super", "sub", "show", "points", "wlist", "wlistold", "aspolar", "ascart", "image", "size",
+             "hash", "eqrow", "pshift", "pshifted", "hashl", "same"] then [i] else []
+  | _ => []
+
+/-- does the request name a slot the store does not have?  (The implementation created an object
+the model did not — the two have diverged; the request is answered `err noobj`, it is not malformed.) -/
+def namesMissing (n : Nat) (toks : List String) : Bool :=
+  (slotArgs toks).any fun s => match parseNat? s with
+    | some i => decide (n ≤ i)
+    | none => false
+
+/-- `reset` empties the store; a request that names a slot which does not exist answers `err noobj`
+and changes nothing; every other request has one `Effect`. -/
 def stepStore (st : Store) (toks : List String) : Option (Store × String) :=
   if toks = ["reset"] then some ([], "ok")
+  else if namesMissing st.length toks then some (st, "err noobj")
   else (stepEffect st toks).map fun r => (r.1.apply st, r.2)
 
 /-! ## Caller-owned arrays -/
